@@ -5,7 +5,7 @@ CONSTANTS
   TickAmounts = {1, 1201}
   Timeouts = {0, 2, 1000000}
   Thresholds = {1000, 999999999}
-  Ages = {0, 1300}
+  Ages = {0}
   PrevFees = 700
   AddFee = 1000
   Strict = FALSE
